@@ -80,7 +80,7 @@ class M(Model):
 
         have = set(envs.entries("BinPack"))
         cand = {"r10e20s2": "r10e20s2_sparse", "r5e10s1o6": "r5e10s1o6_dense", "r20e40": "r20e40_sparse",
-                "r20e60o25": "r20e60o25_dense", "toy": "toy_sparse"}
+                "r20e60o25": "r20e60o25_dense", "toy": "toy_sparse", "csvtiny": "csvtiny_sparse"}
         out = {}
         for a, t in cand.items():
             if a in have and t in have:
